@@ -98,7 +98,8 @@ class TWorld:
     impl = 'thread'
 
     def __init__(self, config=None, coroutine_handlers=False, app_kwargs=None, ws_read_timeout=False,
-                 legacy_disconnect=False, clock=None, sched=None, handler_delay=None):
+                 legacy_disconnect=False, clock=None, sched=None, handler_delay=None,
+                 preempt=False):
         import engineio
         self.clock = clock or vclock.reset()
         vclock.patch_engineio_time()
@@ -106,6 +107,7 @@ class TWorld:
         install_driver()
         self.sched = sched or vsched.Sched(self.clock)
         vsched.set_sched(self.sched)
+        self.sched.trace_on = bool(preempt)
 
         class VServer(engineio.Server):
             def async_modes(self):
